@@ -115,6 +115,8 @@ def make_unit(repo_dir):
         pre + '(starts2(%s, 48, 98) || starts2(%s, 48, 66)) && std_radix_u64(rest(%s, 2), 2) is Some ==> r == Some(u64_as_f64(std_radix_u64(rest(%s, 2), 2).unwrap()))' % (B, B, B, B),
         pre + '(starts1(%s, 48) && %s.len() >= 2 && %s[1] != 120 && %s[1] != 88 && %s[1] != 98 && %s[1] != 66 && std_radix_u64(rest(%s, 1), 8) is Some ==> r == Some(u64_as_f64(std_radix_u64(rest(%s, 1), 8).unwrap())))' % (B, B, B, B, B, B, B, B),
         pre + '(!starts1(%s, 48) ==> r == f64_of_text(t@))' % B,
+        # fall-through: when no prefixed conversion applies (e.g. "0.5", "0e3"), the text goes to std's decimal conversion
+        pre + '(!is1(%s, 48) && !((starts2(%s, 48, 120) || starts2(%s, 48, 88)) && std_radix_u64(rest(%s, 2), 16) is Some) && !((starts2(%s, 48, 98) || starts2(%s, 48, 66)) && std_radix_u64(rest(%s, 2), 2) is Some) && !(starts1(%s, 48) && std_radix_u64(rest(%s, 1), 8) is Some) ==> r == f64_of_text(t@))' % (B, B, B, B, B, B, B, B, B),
         '*self matches CharacterData::Float(v) ==> r == Some(v)',
         '*self matches CharacterData::UnsignedInteger(v) ==> r == Some(u64_as_f64(v))',
         '*self is Enum ==> r is None',
